@@ -521,7 +521,7 @@ fn skip_oracle(kind: SkipKind, cap: &Cap, steps: &[Step], d: &[u8], k: usize, re
             let kind = if comment_between { "skipu-comment-before-brace" } else { "skipu-vs-counting" };
             match expect {
                 Some(e) => if words[0] != "ok" || words[1] != e { obs.violation(kind, case, &format!("impl `{}` expected {}", res, e)); },
-                None => if words[0] == "ok" { obs.violation("skip-unbalanced-ok", case, res); },
+                None => if words[0] == "ok" { obs.violation(if comment_between { kind } else { "skip-unbalanced-ok" }, case, res); },
             }
             obs.count("oracle:skipu-counted");
         }
@@ -530,7 +530,9 @@ fn skip_oracle(kind: SkipKind, cap: &Cap, steps: &[Step], d: &[u8], k: usize, re
     if cap.n != 0 {
         let (sres, spos, _, _) = run_skip(&Cap { n: 0, recycled: false }, &[], d, kind, k);
         if !faulty {
-            if cap.n >= reference.need.max(3) {
+            // (after a byte-level skip over a text whose unquoted tokens contain braces/quotes/'#' the following
+            //  token need not be one of the reference tokens, so `need` only bounds it when everything fits)
+            if cap.n >= reference.need.max(3) && (cap.n > d.len() || skip_comparable(d)) {
                 if sres != res { obs.violation("skip-stream-vs-slice", case, &format!("stream `{}` slice `{}`", res, sres)); }
                 else if words[0] == "ok" && words[1] == "end" && pos != spos { obs.violation("skip-final-position", case, &format!("stream {} slice {}", pos, spos)); }
             } else if res != sres && !res.contains("err:") {
@@ -564,7 +566,7 @@ fn bytes_oracle(cap: &Cap, steps: &[Step], d: &[u8], k: usize, n: usize, res: &s
         if o < d.len() && d[o] == b' ' && reference.toks[k - 1].starts_with("U:") { offsets.push(o + 1); }
     }
     let first = res.split(' ').next().unwrap_or("");
-    if !faulty && fits {
+    if !faulty && (fits || first.starts_with("b:")) {
         if let Some(h) = first.strip_prefix("b:") {
             let got = unhex(h).unwrap_or_default();
             if !offsets.iter().any(|a| a + n <= d.len() && d[*a..a + n] == got[..]) {
@@ -582,7 +584,8 @@ fn bytes_oracle(cap: &Cap, steps: &[Step], d: &[u8], k: usize, n: usize, res: &s
     if cap.n == 0 { return; }
     let (sres, _, _, _) = run_bytes(&Cap { n: 0, recycled: false }, &[], d, k, n);
     if !faulty {
-        if !fits && res != sres && !res.contains("err:") {
+        // too small a buffer: an error, or the same bytes as the slice reader (modulo the one-space offset checked above)
+        if !fits && !res.contains("err:") && !(first.starts_with("b:") && sres.starts_with("b:")) && res != sres {
             obs.violation("bytes-overflow-not-error", case, &format!("stream `{}` slice `{}`", res, sres));
         }
     } else {
